@@ -190,6 +190,24 @@ def c09_3(ctx):
     for f, what in ((init, 'configuration'), (cli, 'command line'), (dsl, '#define')):
         sites = calls_to(ctx, f, {PP + '.create_symbol'})
         ctx.check(bool(sites), f'register:source:{what}', f.site(), f'{what} symbols are registered through create_symbol', 'no call')
+    # every definition of a source reaches create_symbol on its own (that is where a second definition of a name is refused): the
+    # loop that registers them runs over the definitions as given, not over a dict / set built from them (which merges duplicates)
+    for f, what, src in ((init, 'configuration', init.call_params[0].arg if init.call_params else None), (cli, 'command line', cli.call_params[0].arg)):
+        for node, callee in calls_to(ctx, f, {PP + '.create_symbol'}):
+            g_ = ctx.cfg(f)
+            loops_ = g_.loop_facts(g_.node_of(node))
+            if not loops_:
+                continue
+            it = loops_[-1][0].iter
+            while isinstance(it, ast.Call) and unparse(it.func) in ('enumerate', 'list', 'tuple', 'sorted', 'reversed') and it.args:
+                it = it.args[0]
+            d_ = deref(ctx, f, it, loops_[-1][0])
+            while isinstance(d_, ast.Call) and isinstance(d_.func, ast.Attribute) and d_.func.attr in ('items', 'keys', 'values') and not d_.args:
+                d_ = deref(ctx, f, d_.func.value, loops_[-1][0])
+            merging = isinstance(d_, (ast.Dict, ast.DictComp, ast.Set, ast.SetComp)) or (isinstance(d_, ast.Call) and unparse(d_.func) in ('dict', 'set', 'frozenset', 'dict.fromkeys'))
+            ctx.check(not merging, f'register:each-definition-registered:{what}', f.site(node),
+                      f'every {what} definition is handed to create_symbol separately, so that a second definition of a name is refused there',
+                      f'the definitions are first collected in {unparse(d_)[:100]}: two definitions of one name merge silently')
     # the replacement text reaches the symbol unchanged from each source
     okv = {'configuration': ("symbol_def.get('value', '')", "symbol_def['value']", "symbol_def.get('value')", "symbol_def.get('value', None)"),
            'command line': ('value.strip()', 'value', 'None'),
